@@ -192,6 +192,46 @@ def cmd_run(d, pattern="*"):
                 print("... %d/%d" % (n, len(ms)), flush=True)
 
 
+def cmd_stage2(d):
+    """Survivors in the files behind the engines whose spaces are not part of the fingerprint corpus (C16's argument lists,
+    C03's and C18's string sweeps): run those checks themselves against the mutant."""
+    repo = os.path.join(d, "repo")
+    src = os.path.join(repo, "impl", "src")
+    rs = [json.loads(l) for l in open(os.path.join(d, "results.jsonl"))]
+    surv = [r for r in rs if r["status"] == "survived"]
+    plan = {"parsing.rs": ["C16"], "fmt/parsing.rs": ["C03", "C18"], "fmt/mod.rs": ["C03", "C16", "C18"], "fmt/display.rs": ["C03", "C18"], "fmt/debug.rs": ["C03", "C18"]}
+    out_path = os.path.join(d, "stage2.jsonl")
+    done = set()
+    if os.path.exists(out_path):
+        for l in open(out_path):
+            r = json.loads(l)
+            done.add((r["file"], r["line"], r["op"], r["k"]))
+    e = dict(os.environ)
+    e.update(VERIF_REPO=repo, VERIF_TARGET=os.path.join(d, "vt"), VERIF_WORK=os.path.join(d, "vw"), VERIF_OUT=os.path.join(d, "vout"))
+    with open(out_path, "a") as out:
+        for r in surv:
+            key = (r["file"], r["line"], r["op"], r["k"])
+            if key in done or r["file"] not in plan or "unreachable!" in r["old"]:
+                continue
+            m = next(x for x in mutants("/repo", r["file"]) if (x["file"], x["line"], x["op"], x["k"]) == key)
+            path = os.path.join(src, r["file"])
+            orig = open(path).read()
+            lines = orig.split("\n")
+            lines[m["line"] - 1] = m["_new_line"]
+            open(path, "w").write("\n".join(lines))
+            verdict = {}
+            try:
+                for chk in plan[r["file"]]:
+                    p = sh(["python3", os.path.join(VERIF, "run_check.py"), chk, "--tier", "quick"], env=e)
+                    verdict[chk] = p.returncode
+            finally:
+                open(path, "w").write(orig)
+            rec = dict(r, checks=verdict, killed_by_checks=any(v == 1 for v in verdict.values()))
+            out.write(json.dumps(rec) + "\n")
+            out.flush()
+            print("%s %s:%d [%s] %s" % ("KILLED  " if rec["killed_by_checks"] else "SURVIVED", r["file"], r["line"], r["op"], verdict), flush=True)
+
+
 def cmd_report(d):
     rs = [json.loads(l) for l in open(os.path.join(d, "results.jsonl"))]
     import collections
@@ -211,5 +251,7 @@ if __name__ == "__main__":
         cmd_corpus(sys.argv[2])
     elif cmd == "run":
         cmd_run(sys.argv[2], *(sys.argv[3:4]))
+    elif cmd == "stage2":
+        cmd_stage2(sys.argv[2])
     elif cmd == "report":
         cmd_report(sys.argv[2])
